@@ -40,7 +40,8 @@ fn value_ops(shape: &Shape, v: &Val, is_acct: bool, rng: &mut Rng, out: &mut Vec
     out.push(format!("dec {}", hex(&rb)));
     if !shape.zst() {
         let mut ext = rb.clone();
-        ext.extend(rng.bytes(1 + rng.below(4) as usize));
+        let extra = 1 + rng.below(4) as usize;
+        ext.extend(rng.bytes(extra));
         out.push(format!("dec {}", hex(&ext)));
     }
     out.push(format!("tbs {vt}"));
